@@ -1282,6 +1282,108 @@ def run_abf_merge(c, tier):
         c.nontrivial("merge|2d|%s" % cls)
 
 
+def run_czar_customgrid(c, tier):
+    """End to end: a one-dimensional eABF bias on a periodic variable (dihedral) whose `grid { ... }` block gives the bias a grid of
+    another extent -- and so of another periodicity -- than the variable's own boundaries (a window of the circle, or the whole
+    circle for a variable whose boundaries cover a window).  After a short run with imposed values and forces the written
+    `.czar.pmf` has one node per bin edge (n+1 nodes) for a non-periodic grid and n for a periodic one, at lower + i*width, and
+    equals the cumulative sum of `.czar.grad` times the width (mean gradient removed on a periodic grid), shifted to a zero minimum."""
+    import ctl
+    rng = c.rng.__class__(c.seed * 6151 + 23)
+    ncases = 6 if tier == "quick" else 40
+    cases = []
+    for i in range(ncases):
+        w = rng.choice([10.0, 15.0, 20.0])
+        if i % 2 == 0:
+            vlo, vhi = -180.0, 180.0
+            glo = rng.choice([-90.0, -120.0, -60.0])
+            ghi = glo + w * rng.randint(6, 10)
+        else:
+            vlo, vhi = -60.0, 60.0
+            glo, ghi = -180.0, 180.0
+        T = 60
+        lo_, hi_ = max(glo, -170.0), min(ghi, 170.0)
+        xs = [ctl.dy(rng, lo_ + 1.0, hi_ - 1.0, 3) for _ in range(T)]
+        fs = [ctl.dy(rng, -3.0, 3.0, 4) for _ in range(T)]
+        cases.append(dict(idx=i, w=w, vlo=vlo, vhi=vhi, glo=glo, ghi=ghi, xs=xs, fs=fs, periodic=(ghi - glo == 360.0)))
+
+    def runner(case):
+        wd = os.path.join(c.work, "czg%d" % case["idx"])
+        os.makedirs(wd, exist_ok=True)
+        xl = "  extendedLagrangian on\n  extendedFluctuation 5.0\n  extendedTimeConstant 100\n  extendedTemp 300\n"
+        cfg = (ctl.cv_phi(width=case["w"], extra=xl, lower=case["vlo"], upper=case["vhi"]) +
+               "abf {\n  name b\n  colvars phi\n  fullSamples 1\n  grid {\n    lowerBoundary %s\n    upperBoundary %s\n    width %s\n  }\n}\n" % (
+                   fnum(case["glo"]), fnum(case["ghi"]), fnum(case["w"])))
+        scn = ctl.header("prev", extra="dt 1.0\ntemp 300.0") + "emit atoms off\nmodule\nprefix out\nconfig <<EOC\n" + cfg + "EOC\ninit\n"
+        for x, f in zip(case["xs"], case["fs"]):
+            fe = [[0.0, 0.0, 0.0] for _ in range(ctl.NATOMS)]
+            fe[4][2] += f
+            fe[7][2] -= f
+            scn += ctl.pos_line(phi=x) + "\nfext " + " ".join(fnum(v) for q in fe for v in q) + "\nstep\n"
+        scn += "endrun\n"
+        case["cfg"] = cfg
+        return common.run_esim("plain", scn, wd, "czg", timeout=300)
+
+    def read1(path):
+        hdr, rows = [], []
+        for line in open(path):
+            t = line.split()
+            if not t:
+                continue
+            if t[0] == "#":
+                hdr.append(t[1:])
+            else:
+                rows.append([float(v) for v in t])
+        return hdr, rows
+
+    for case, (r, ev, sp) in zip(cases, common.pmap(runner, cases)):
+        wd = os.path.dirname(sp)
+        c.count()
+        cls = "%s_variable:%s_grid" % ("periodic" if case["vhi"] - case["vlo"] == 360.0 else "window", "periodic" if case["periodic"] else "window")
+        bad = [e for e in ev if e["ev"] in ("config", "init") and (e.get("rc") or e.get("err"))]
+        fp, fg = os.path.join(wd, "out.czar.pmf"), os.path.join(wd, "out.czar.grad")
+        if not r["complete"] or bad or not (os.path.exists(fp) and os.path.exists(fg)):
+            if r["sig"]:
+                c.violation("czar_customgrid:crash:" + cls, "signal %s: %s" % (r["sig"], r["err"][-300:]), [sp], payload={"config": case["cfg"]})
+            else:
+                c.inconc("eABF custom-grid case %s: %s" % (cls, (bad[0].get("errs") if bad else "files written: %s %s; %s" % (os.path.exists(fp), os.path.exists(fg), r["err"][-200:]))))
+            continue
+        hg, g = read1(fg)
+        hp, pm = read1(fp)
+        n = int(round((case["ghi"] - case["glo"]) / case["w"]))
+        if len(g) != n:
+            c.violation("czar_customgrid:grad_size:" + cls, "out.czar.grad has %d rows; the grid of the bias has %d bins" % (len(g), n), [sp, fg], payload={"config": case["cfg"]})
+            continue
+        nn = n if case["periodic"] else n + 1
+        if len(pm) != nn:
+            c.violation("czar_customgrid:pmf_size:" + cls, "out.czar.pmf has %d nodes; a %s grid of %d bins has %d (variable boundaries [%g:%g], grid [%g:%g])" % (
+                len(pm), "periodic" if case["periodic"] else "non-periodic", n, nn, case["vlo"], case["vhi"], case["glo"], case["ghi"]), [sp, fp, fg],
+                payload={"config": case["cfg"]})
+            continue
+        gv = [row[1] for row in g]
+        if all(v == 0.0 for v in gv):
+            c.inconc("eABF custom-grid case %s: no CZAR gradient data" % cls)
+            continue
+        corr = sum(gv) / n if case["periodic"] else 0.0
+        a = [0.0]
+        for i in range(n):
+            a.append(a[-1] + (gv[i] - corr) * case["w"])
+        a = a[:nn]
+        m = min(a)
+        a = [v - m for v in a]
+        A = [row[1] for row in pm]
+        scale = max(1.0, max(abs(v) for v in A), max(abs(v) for v in a))
+        dev = max(abs(x - y) for x, y in zip(A, a))
+        xdev = max(abs(row[0] - (case["glo"] + i * case["w"])) for i, row in enumerate(pm))
+        if dev > 1e-9 * scale * n or xdev > 1e-9 * 360.0:
+            c.violation("czar_customgrid:surface:" + cls, "out.czar.pmf differs from the cumulative sum of out.czar.grad x width%s by %.4g (abscissae by %.4g); "
+                        "grid [%g:%g] width %g, variable boundaries [%g:%g]" % (" (mean removed)" if case["periodic"] else "", dev, xdev, case["glo"], case["ghi"], case["w"],
+                                                                            case["vlo"], case["vhi"]), [sp, fp, fg], payload={"config": case["cfg"]})
+            continue
+        c.nontrivial("czar_customgrid|1d|" + cls)
+        c.bump("czar_customgrid_surfaces_checked")
+
+
 def run(tier, replay):
     c = common.Check(PID, tier)
     c.rule = ("distinct (law, dimension, periodicity pattern, sub-law / smoothing / arrival-order class) with a "
@@ -1307,6 +1409,7 @@ def run(tier, replay):
     process(c, "plain", jobs["e2e"], 1, 600, results)
     run_ti_pmf(c, tier)
     run_abf_merge(c, tier)
+    run_czar_customgrid(c, tier)
     # a sample of every workload under ASan+UBSan (fatal reports)
     try:
         vbuild.tool("asan", "h_poisson")
